@@ -70,9 +70,11 @@ impl Kind {
                                 let original = array.clone();
                                 *array = original.clone();
 
+                                // A negative index that reaches before the first known element can
+                                // still name any of them (the unknown tail makes the length open).
                                 let min_index = array
                                     .largest_known_index()
-                                    .map_or(0, |x| x + 1 - negative_index);
+                                    .map_or(0, |x| (x + 1).saturating_sub(negative_index));
 
                                 if let Some(largest_known_index) = array.largest_known_index() {
                                     for i in min_index..=largest_known_index {
